@@ -142,6 +142,7 @@ func gated(p params) *fw.Scenario {
 		}
 		var rMethods map[string]bool
 		base, gateThread, otherHandle, setupFrames := 0, -1, -2, 0
+		rHandle := -1 // >= 0: R's backend calls are the rMethods calls on THIS handle, whichever thread makes them and whenever
 		body := func() {
 			fs = mkfs()
 			if p.Recycled {
@@ -170,6 +171,12 @@ func gated(p params) *fw.Scenario {
 			case "walk2":
 				R = rawpeer.Twalk(rTag, 1, 3, "d", "x")
 				rMethods = map[string]bool{"Walk": true, "WalkGetAttr": true, "GetAttr": true}
+			case "walk-onto-bound":
+				// R re-binds fid 2: the File it displaces is closed on R's behalf
+				s.Walk(1, 2, "f")
+				rHandle = len(fs.Handles) - 1
+				R = rawpeer.Twalk(rTag, 1, 2, "d")
+				rMethods = map[string]bool{"Close": true}
 			case "renameat":
 				s.Walk(1, 2, "d")
 				s.Walk(1, 3, "e")
@@ -185,7 +192,7 @@ func gated(p params) *fw.Scenario {
 			seen := 0
 			base = len(fs.Calls)
 			fs.Hook = func(c *memfs.Call) *memfs.Action {
-				if c.Seq < base || !rMethods[c.Method] || c.Handle == otherHandle {
+				if c.Seq < base || !rMethods[c.Method] || c.Handle == otherHandle || (rHandle >= 0 && c.Handle != rHandle) {
 					return nil
 				}
 				seen++
@@ -277,6 +284,12 @@ func gated(p params) *fw.Scenario {
 			}
 			var rcalls []*memfs.Call
 			for _, c := range fs.Calls {
+				if rHandle >= 0 {
+					if c.Seq >= base && rMethods[c.Method] && c.Handle == rHandle {
+						rcalls = append(rcalls, c)
+					}
+					continue
+				}
 				if c.Seq < base || !rMethods[c.Method] || c.Thread != gateThread || c.Handle == otherHandle {
 					continue
 				}
@@ -345,6 +358,7 @@ func run(ctx *fw.Ctx, rep *fw.Report) {
 		calls int
 	}{{"read", 1}, {"write", 1}, {"walk2", 2}, {"renameat", 2}}
 	// NOTAG used as an ordinary tag by the flushed request
+	scs = append(scs, gated(params{Request: "walk-onto-bound", GateCall: 1, Flushes: 1}), gated(params{Request: "walk-onto-bound", GateCall: 1, Flushes: 2}))
 	scs = append(scs, gated(params{Request: "read", GateCall: 1, Flushes: 1, Recycled: true}), gated(params{Request: "walk2", GateCall: 2, Flushes: 2, Recycled: true}))
 	scs = append(scs, gated(params{Request: "read", GateCall: 1, Flushes: 1, Tag: 0xffff}), gated(params{Request: "walk2", GateCall: 2, Flushes: 1, Tag: 0xffff}))
 	// flushes of an idle / the own tag while another request is held and being flushed
